@@ -473,10 +473,16 @@ class BaseWorklist(list):
         if len(volumes) == 1:
             volumes = numpy.repeat(volumes, len(wells))
         labware.remove(wells, volumes, label)
-        self.comment(label)
-        for well, volume in zip(wells, volumes):
-            if volume > 0:
-                self.aspirate_well(labware.name, self._get_well_position(labware, well), volume, **kwargs)
+        n_records = len(self)
+        try:
+            self.comment(label)
+            for well, volume in zip(wells, volumes):
+                if volume > 0:
+                    self.aspirate_well(labware.name, self._get_well_position(labware, well), volume, **kwargs)
+        except Exception:
+            # a call whose parameters are rejected leaves no records behind
+            del self[n_records:]
+            raise
         return
 
     def dispense(
@@ -513,10 +519,16 @@ class BaseWorklist(list):
         if len(volumes) == 1:
             volumes = numpy.repeat(volumes, len(wells))
         labware.add(wells, volumes, label, compositions=compositions)
-        self.comment(label)
-        for well, volume in zip(wells, volumes):
-            if volume > 0:
-                self.dispense_well(labware.name, self._get_well_position(labware, well), volume, **kwargs)
+        n_records = len(self)
+        try:
+            self.comment(label)
+            for well, volume in zip(wells, volumes):
+                if volume > 0:
+                    self.dispense_well(labware.name, self._get_well_position(labware, well), volume, **kwargs)
+        except Exception:
+            # a call whose parameters are rejected leaves no records behind
+            del self[n_records:]
+            raise
         return
 
     def transfer(
